@@ -18,6 +18,7 @@ pub mod close;
 pub mod hostile;
 pub mod nego;
 pub mod proto;
+pub mod share;
 
 pub fn run(args: &Args, log: &Log) -> Result<(), String> {
     match args.driver.as_str() {
@@ -40,6 +41,7 @@ pub fn run(args: &Args, log: &Log) -> Result<(), String> {
         "hostile" => hostile::run(args, log),
         "nego" => nego::run(args, log),
         "proto" => proto::run(args, log),
+        "share" => share::run(args, log),
         d => Err(format!("unknown driver {d}")),
     }
 }
